@@ -271,6 +271,9 @@ def main():
     cfg["_pid"] = pid
     tcfg = dict(cfg.get("common", {}))
     tcfg.update(cfg[tier])
+    if os.environ.get("VERIF_UNIT_TIMEOUT"):
+        # maintenance only: smaller per-unit time budget, to exercise a tier quickly
+        tcfg["timeout"] = int(os.environ["VERIF_UNIT_TIMEOUT"])
     work = os.path.join(VERIF, "work", "%s-%s%s" % (pid, tier, os.environ.get("VERIF_WORKTAG", "")))
     os.makedirs(work, exist_ok=True)
     hdir, rels = build_harness(pid, tier, cfg, work)
